@@ -49,12 +49,31 @@ def run(rep, tier, rng):
         operands += [("KSp", vi, None), ("KSym", vi, None), ("KDyn", vi, None)]
     # the empty vocabulary: a module of it, a typed symbol, and operands explicitly reinterpreted into it
     operands += [("KDyn", 4, None), ("KSym", 4, None), ("KSp", 4, "reint"), ("KDyn", 4, "reint"), ("KDyn", 1, "transcode-out")]
+    # operands derived by a unary operation keep their vocabulary; outputs of modules with distinct input / output vocabularies
+    operands += [("KSym", 0, "linv"), ("KSym", 1, "rinv"), ("KSym", 0, "inv"), ("KSym", 1, "neg"), ("KSym", 0, "normalized"),
+                 ("KDyn", 0, "neg"), ("KDyn", 1, "inv"), ("KSp", 0, "neg"), ("KSp", 1, "inv"),
+                 ("KDyn", 1, "assoc-out"), ("KDyn", 0, "bind-out")]
     operands += [("KSp", None, "hrr16"), ("KSp", None, "vtb16"), ("KSp", None, "hrr32"), ("KSym", None, None),
                  ("KDynScalar", None, None), ("KNum", None, "int"), ("KNum", None, "np.float64"), ("KArr", None, 16)]
 
     def build(desc, special=None):
         """special: None (regular value), 'zero' or 'unit' - the gate must not depend on the operand's value."""
         k, vi, ex = desc
+        if k == "KSym" and ex in ("linv", "rinv", "inv", "neg", "normalized"):
+            base_sym = PointerSymbol("A", TVocabulary(vocs[vi]))
+            return {"linv": lambda: base_sym.linv(), "rinv": lambda: base_sym.rinv(), "inv": lambda: ~base_sym, "neg": lambda: -base_sym,
+                    "normalized": lambda: base_sym.normalized()}[ex]()
+        if k == "KDyn" and ex in ("neg", "inv"):
+            nd = as_ast_node(spa.State(vocs[vi]))
+            return -nd if ex == "neg" else ~nd
+        if k == "KSp" and ex in ("neg", "inv"):
+            return -vocs[vi]["A"] if ex == "neg" else ~vocs[vi]["A"]
+        if k == "KDyn" and ex == "assoc-out":
+            # hetero-associative memory: its output belongs to the output vocabulary
+            other_in = vocs[0] if vi != 0 else vocs[1]
+            return as_ast_node(spa.ThresholdingAssocMem(0.3, input_vocab=other_in, output_vocab=vocs[vi], mapping={"A": "A"}))
+        if k == "KDyn" and ex == "bind-out":
+            return as_ast_node(spa.Bind(vocs[vi]))
         if k == "KSp" and ex == "reint":
             return vocs[0]["A"].reinterpret(vocs[vi])
         if k == "KDyn" and ex == "reint":
@@ -130,7 +149,8 @@ def run(rep, tier, rng):
     OPS = {"PAdd": ("+", operator.add), "PSub": ("-", operator.sub), "PMul": ("*", operator.mul),
            "PDiv": ("/", operator.truediv), "PDot": ("@", operator.matmul),
            "PCompare": ("compare", lambda a, b: a.compare(b)), "PMse": ("mse", lambda a, b: a.mse(b)),
-           "PRoute": (">>", None), "PRouteT": (">> Transcode(input_vocab != output_vocab)", None)}
+           "PRoute": (">>", None), "PRouteT": (">> Transcode(input_vocab != output_vocab)", None),
+           "PRouteA": (">> associative memory (input_vocab != output_vocab)", None)}
     exprs, meta = [], []
     MODES = [(None, None), ("zero", None), (None, "zero"), ("zero", "zero"), ("unit", "unit")]
     for op, (sym_, fn), (sa, sb) in ((o, f, m) for o, f in OPS.items() for m in MODES):
@@ -141,15 +161,21 @@ def run(rep, tier, rng):
                 continue
             if op in ("PCompare", "PMse") and not (da[0] == "KSp" and db[0] in ("KSp",)):
                 continue
-            if op in ("PRoute", "PRouteT") and (db[0] != "KDyn" or db[2] is not None):
+            if op in ("PRoute", "PRouteT", "PRouteA") and (db[0] != "KDyn" or db[2] is not None):
                 continue
-            if op in ("PRoute", "PRouteT") and da[0] in ("KArr",):
+            if op in ("PRoute", "PRouteT", "PRouteA") and da[0] in ("KArr",):
+                continue
+            if op == "PRouteA" and db[1] == 4:
                 continue
             with spa.Network():
                 try:
                     a = build(da, sa)
                     if op == "PRoute":
                         sink = spa.State(vocs[db[1]])
+                        r = a >> sink
+                    elif op == "PRouteA":
+                        other_v = vocs[1] if db[1] != 1 else vocs[0]
+                        sink = spa.ThresholdingAssocMem(0.3, input_vocab=vocs[db[1]], output_vocab=other_v, mapping={"A": "A"})
                         r = a >> sink
                     elif op == "PRouteT":
                         # one node is both input and output, declared with different vocabularies: `>>` checks the input's
@@ -182,7 +208,7 @@ def run(rep, tier, rng):
                     obs, o_py = "COtherError", type(e).__name__
             same_alg = alg_of(da) == alg_of(db)
             dd = dim_of(da) is not None and dim_of(db) is not None and dim_of(da) != dim_of(db)
-            cop = "PRoute" if op == "PRouteT" else op
+            cop = "PRoute" if op in ("PRouteT", "PRouteA") else op
             exprs.append(f"c03_check {cdims} {cop} {da[0]} {db[0]} {ty_of(da)} {ty_of(db)} {c.b(same_alg)} {c.b(dd)} {obs}")
             meta.append({"op": sym_, "a": da, "b": db, "observed": o_py, "same_alg": same_alg, "values": [sa or "regular", sb or "regular"]})
             rep.case((op, da, db, sa, sb), nontrivial=da[0] not in ("KNum", "KArr") and db[0] not in ("KNum", "KArr"),
